@@ -186,7 +186,7 @@ func (dist *BetaDistribution) SetParameters(parameters Vector) error {
 
 func (dist *BetaDistribution) ImportConfig(config ConfigDistribution, t ScalarType) error {
 
-  if parameters, ok := config.GetParametersAsFloats(); !ok {
+  if parameters, ok := config.GetParametersAsFloats(); !ok || len(parameters) < 3 {
     return fmt.Errorf("invalid config file")
   } else {
     alpha    := NewScalar(t, parameters[0])
